@@ -77,6 +77,14 @@ package ice
 //@   ensures registered-v6-under-ufrag-and-local-ip: result1 == nil && isIPv6 ==> has(m.connsIPv6, ufrag) && has(m.connsIPv6[ufrag], key) && m.connsIPv6[ufrag][key] == result0
 //@   ensures registered-v4-under-ufrag-and-local-ip: result1 == nil && !isIPv6 ==> has(m.connsIPv4, ufrag) && has(m.connsIPv4[ufrag], key) && m.connsIPv4[ufrag][key] == result0
 
+// The close watcher of a connection takes exactly that connection out of the tables (the entry under
+// its own ufrag and local IP), never the ufrag's connections on other local addresses, whose handles
+// may still be open.
+//@ func (*TCPMuxDefault).createConn$1
+//@   props C13 C15
+//@   opt nosafety
+//@   site call removeConnByUfragAndLocalHost#1 assert the-watcher-removes-only-its-own-connection: arg0 == m && arg1 == ufrag && arg2 == connKey
+
 //@ func (*TCPMuxDefault).RemoveConnByUfrag
 //@   props C15
 //@   opt nosafety
